@@ -32,6 +32,7 @@ const (
 	FaultDropped                      // not appended, ErrShardNotReady
 	FaultTimeoutLost                  // not appended, ErrTimeout (caller cannot know)
 	FaultTimeoutApplied               // appended and applied, but the caller gets ErrTimeout
+	FaultTimeoutLate                  // committed; the caller gets ErrTimeout; its own replica applies later
 )
 
 // Universe is the simulated Raft world. The harness creates one per run, installs
@@ -48,7 +49,13 @@ type Universe struct {
 	DropPermille           uint64
 	TimeoutLostPermille    uint64
 	TimeoutAppliedPermille uint64
-	FaultMinShard          uint64
+	// TimeoutLatePermille: slow apply. The entry is committed at its place in the log, the other replicas
+	// apply it, the proposer gets ErrTimeout and its own replica applies (in log order) after a keyed delay
+	// of up to TimeoutLateMaxMs of fake time: what a proposal that outlives its caller's deadline does
+	// when the local state machine is behind.
+	TimeoutLatePermille uint64
+	TimeoutLateMaxMs    uint64
+	FaultMinShard       uint64
 	// ReadBusyPermille: keyed probability that a linearizable read is refused with ErrSystemBusy
 	// (the read-index queue of an overloaded node is full).
 	ReadBusyPermille uint64
@@ -96,8 +103,9 @@ type Replica struct {
 	// Lagging replicas apply only on demand (own proposals, linearizable reads) or on explicit CatchUp.
 	Lagging bool
 	// Stalled replicas cannot apply at all: calls that need them time out.
-	Stalled bool
-	halted  bool
+	Stalled   bool
+	slowUntil uint64 // token of the pending slow-apply resume timer (FaultTimeoutLate)
+	halted    bool
 
 	disk sm.IOnDiskStateMachine
 	conc sm.IConcurrentStateMachine
